@@ -188,3 +188,14 @@ NOTES["C16"] = dict(
     note="Partial: rounding (1e-10 relative); one candidate per aggregate.",
     technique="Lean 4 proof of the algebraic identities; dense re-evaluation of the real outputs",
 )
+
+NOTES["C19"] = dict(
+    text=("Lean model of the stencil matrix by grid coordinates (row-major index/coordinate maps, offset -> stencil position) with theorems in "
+          "Props/C19.lean (as proved at this commit); the entries produced by the real sequential and distributed generators on grids of 1-3 "
+          "dimensions with unequal extents and arbitrary symmetric zero patterns are compared entry by entry with the model. Matrix Market "
+          "round trips (write_mm/read_mm/read_par_mm/write_par_mm, general and symmetric headers) and PETSc binary files (sequential reader, "
+          "distributed reader on default and explicit partitions) are compared with the source matrix: pattern exactly, values to printed "
+          "precision (bitwise for the binary format)."),
+    note="Partial: libc number printing/parsing is trusted; PETSc files are big-endian as the format specifies.",
+    technique="Lean 4 proof on the coordinate model of stencil matrices; entry-level correspondence; file round trips against the source matrix",
+)
